@@ -165,6 +165,9 @@ def run(ctx):
     # ------------------------------------------------------------------ R13.8 (generic, scoped to this property's anchors)
     sm.rule_named_plumbing(ctx, mir, "C13", "R13.8", floor=37)
 
+    # ------------------------------------------------------------------ R13.9
+    rule_sink_bytes_provenance(ctx, mir)
+
     ctx.not_decided += ["streaming-decoder correctness at split multi-byte characters and U+FFFD placement (encoding_rs behaviour at run time)", "numeric character reference generation for unmappable characters (encoding_rs encoder)"]
     return ("Type-level witnesses (compile_fail + compiling twin) that only ASCII-compatible encodings can be configured, who-may-call rules for the "
             "write-once shared encoding and for BOM-sniffing decode entry points, placement of the encoding switch relative to the meta token on the CFG, "
@@ -303,3 +306,28 @@ def rule_meta_charset(ctx, mir, rid="R13.7"):
     r.inst("feed_text|chunk-encoding", sample={"encoding_operands": [e_[:60] for e_ in encs]})
     if len(encs) != 2 or any(("static " in e_) or ("self.encoding" not in e_) for e_ in encs):
         r.violate("feed_text|chunk-encoding", f"TextDecoder::feed_text hands a text chunk to the handlers with encoding {encs} instead of the document encoding on both paths: content a handler attaches to such a chunk is written as raw UTF-8 into a legacy-encoded document (no transcoding, no numeric character references)", ftx.loc())
+
+
+def rule_sink_bytes_provenance(ctx, mir, rid="R13.9"):
+    r = ctx.rule(rid, "bytes handed to the output sink are either input bytes or the product of an encoder: no OutputSink::handle_chunk call receives the UTF-8 bytes of a Rust string (str::as_bytes / String::into_bytes / from_raw_parts) directly; the closures that forward a chunk `c` to the sink are the ones given to StreamingHandlerSink::new or to the token serializer", "E-MIR operand provenance", floor=6)
+    n = 0
+    for f in mir.fns:
+        if mir.is_test_fn(f):
+            continue
+        for bi, t in f.calls(r"OutputSink::handle_chunk$|::handle_chunk$"):
+            n += 1
+            args = [f.deep(a) for a in t["args"][1:]]
+            key = f.key + "|handle_chunk"
+            r.inst(key, sample={"argument": [a[:100] for a in args]})
+            bad = [a for a in args if re.search(r"str::as_bytes\(|String::as_bytes\(|into_bytes\(|from_raw_parts|String::as_str\(|as_bytes_mut\(", a)]
+            if bad:
+                r.violate(key, f"{f.key} writes the UTF-8 bytes of a string to the output sink without going through the encoder for the document encoding ({bad[0][:120]}): in a non-UTF-8 document the inserted content comes out as mojibake / is not encodable content escaped", f.loc())
+            if "{closure" in f.key and args and re.fullmatch(r"c|chunk|bytes|arg\d+", args[0].strip()):
+                # the closure must be consumed by an encoding entry point of its parent
+                parent_key = f.key.rsplit("::{closure", 1)[0]
+                ps = [g for g in mir.fns if g.key == parent_key]
+                ok = any(list(g.calls(r"StreamingHandlerSink::new$|Serialize|to_bytes|into_bytes$|Token::.*encode|encode")) for g in ps)
+                if not ok:
+                    r.violate(key + "|consumer", f"{f.key} forwards chunks to the sink but its parent {parent_key} hands it to no encoder entry point", f.loc())
+    r.count("handle_chunk_calls", n)
+
